@@ -2,11 +2,14 @@
 import json, os
 import vlib
 
-THEOREMS = ["Slock.C12.C12_monotone_handlers", "Slock.C12.C12_commit_not_persisted", "Slock.C12.C12_monotone_partial",
-            "Slock.C12.C12_monotone_partial_between", "Slock.C12.C12_monotone_regress_sources", "Slock.C12.C12_monotone_counterexample",
-            "Slock.C12.C12_monotone_with_restart_counterexample", "Slock.C12.C12_one_winner_partial",
-            "Slock.C12.C12_one_winner_pure_intersection", "Slock.C12.C12_one_winner_counterexample",
-            "Slock.C12.C12_one_winner_with_restart_counterexample", "Slock.C12.C12_candidate", "Slock.C12.C12_candidate_none",
+THEOREMS = ["Slock.C12.C12_monotone", "Slock.C12.C12_monotone_between", "Slock.C12.C12_monotone_handlers",
+            "Slock.C12.C12_commit_not_persisted", "Slock.C12.C12_monotone_partial", "Slock.C12.C12_monotone_corpus",
+            "Slock.C12.C12_monotone_with_restart_counterexample",
+            "Slock.C12.C12_latched_never_acks", "Slock.C12.C12_failed_commit_keeps_foreign_latch",
+            "Slock.C12.C12_doproposal_keeps_promise", "Slock.C12.C12_one_winner_partial",
+            "Slock.C12.C12_one_winner_stable_intersection", "Slock.C12.C12_one_winner_corpus",
+            "Slock.C12.C12_one_winner_counterexample", "Slock.C12.C12_one_winner_with_restart_counterexample",
+            "Slock.C12.C12_refuse_while_leader_known", "Slock.C12.C12_candidate", "Slock.C12.C12_candidate_none",
             "Slock.C12.C12_refuse_newer", "Slock.C12.C12_reject_vetoes", "Slock.C12.compareAofId_reflexive",
             "Slock.C12.compareAofId_zero_iff_eq", "Slock.C12.compareAofId_antisymmetric", "Slock.C12.compareAofId_window_order",
             "Slock.C12.compareAofId_not_transitive", "Slock.C12.C12_quorum_overlap_all_data",
@@ -14,18 +17,17 @@ THEOREMS = ["Slock.C12.C12_monotone_handlers", "Slock.C12.C12_commit_not_persist
 FINISH = {"level": "proof", "assumptions": [
     "M-ELECT is hand-written; it is tied to server/arbiter.go by the differential run on real ArbiterManager objects (real DoVote/DoProposal/DoCommit, "
     "real vote/proposal/commit handlers, real ArbiterStore Save/Load) — every event's outcome and the full end state are compared",
-    "the modelled window is vote → proposal → commit: no announcements / voteSucced, no role LEADER in any member table, all members online, no membership change; "
+    "the modelled window is vote → proposal → commit: no announcements / voteSucced (announcements fired by a refusing acceptor are lost), member tables may hold LEADER roles and offline entries but statuses do not change, manager.leaderMember is nil, no membership change; "
     "`save m` stands for any later ArbiterStore.Save (voteSucced, announcement handler)",
     "restart = new ArbiterManager + ArbiterStore.Load + proposalId := commitId; the member's log position is durable; messages of the restarted candidate are gone, "
     "messages of other candidates to it stay deliverable",
     "the harness runs the self request of a phase first (DoRequests starts it in a goroutine; the model allows any position)",
     "the network does not duplicate messages (TCP); hosts are compared as the strings h0..h9",
-    "one_winner / monotone are proved in their _partial forms only (pure acceptors); the full statements are refuted by concrete executions"]}
+    "monotone is proved at full strength for members that are not restarted; one_winner is proved up to the release of a member's own latch after lost commit replies (acknowledgement level) and is refuted across restarts (D1 not repaired)"]}
 
 
 # causes that are the recorded defects D1/D2/D3 at work in the generated execution (see the harness: vElCause, check)
-KNOWN_CAUSES = (":restart-forgot-commit", ":failed-commit-cleared-latch", ":doproposal-overwrote-number",
-                ":commit-not-persisted", ":proposal-not-persisted")
+KNOWN_CAUSES = (":restart-forgot-commit", ":failed-commit-cleared-latch", ":commit-not-persisted", ":proposal-not-persisted")
 
 
 def read_monitor(ctx, outdir, mode, prefixes):
